@@ -866,6 +866,17 @@ pub fn check_c05(tier: &str) -> i32 {
                 paths.push(vec![Ev::Enable(0), Ev::ConnectOk, submit.clone(), Ev::ReplyStale(1), Ev::ReplyPartial(n), end, Ev::AdvanceToNext, Ev::ConnectOk, submit.clone(), Ev::ReplyOk]);
             }
         }
+        // a handle call (or a second request) processed by the client task between two reads of one
+        // frame: the frame boundary must not move (the idle client selects between the reader and
+        // its command queue, so the read is cancelled and resumed)
+        for n in 1..=12usize {
+            for cmd in [Ev::SetDecode(0), Ev::Enable(0)] {
+                paths.push(vec![Ev::Enable(0), Ev::ConnectOk, Ev::ReplyPartial(n), cmd.clone(), Ev::ReplyRest, submit.clone(), Ev::ReplyOk]);
+                paths.push(vec![Ev::Enable(0), Ev::ConnectOk, submit.clone(), Ev::ReplyPartial(n), cmd.clone(), Ev::ReplyRest, submit.clone(), Ev::ReplyOk]);
+            }
+            paths.push(vec![Ev::Enable(0), Ev::ConnectOk, submit.clone(), Ev::ReplyPartial(n), submit.clone(), Ev::ReplyRest, Ev::ReplyOk]);
+            paths.push(vec![Ev::Enable(0), Ev::ConnectOk, Ev::ReplyPartial(n), submit.clone(), Ev::ReplyRest, Ev::ReplyOk]);
+        }
         parallel(paths.len(), |i, st| {
             let r = run_path(&cfg, &paths[i]);
             st.evaluations += 1;
@@ -886,7 +897,7 @@ pub fn check_c05(tier: &str) -> i32 {
             }
         })
     };
-    rep.phase("client role: stream cut by the end of a connection, honest exchange on the next one", st, json!({}));
+    rep.phase("client role: stream cut by the end of a connection (honest exchange on the next one) or interleaved with handle calls", st, json!({}));
     for c in ["connection-boundary", "command-between-reads", "stream-complete", "stream-ends-in-framing-error", "stream-ends-mid-frame", "client-accepts", "client-framing-error", "client-still-waiting", "client-exception"] {
         rep.require_class(c);
     }
